@@ -10,6 +10,10 @@ NOT_APPLICABLE = {
 
 # id -> (engine, level category, level text, level note, technique, design_ref)
 CHECKS = {
+    "C30": ("StepExec", "exploration",
+            "Two StepExec activities run the real PsiHashDiscoveryProtocol alice / bob roles over SimDuplex carrying the production postcard bytes, each with its own in-memory SQLite address book: seeded topic sets (0-100 % overlap, shared 31-byte prefixes, empty sides), address books with per-node topic sets, restricted sharing on / off; both results must equal the exact intersection, no raw 32-byte topic (of either side or of address-book nodes) may occur in the postcard or CBOR bytes or hex of any message, restricted sharing sends only nodes with a common topic plus self; with a stream close / sink error / stream error at message k the hit side returns Err, nobody hangs and any Ok result is still correct.",
+            "Local topics and node infos come from the crate's test_utils stubs. Salts are drawn from rand::rng() inside the protocol (a function of the run seed through the interposed getrandom); no oracle or trace depends on them.",
+            "deterministic simulation with fault injection: two protocol roles over a simulated duplex with close / error faults, wire-leak oracle", "§4 C30"),
     "C22": ("DES", "fault_enumeration",
             "Two layers. (a) Every session of a seeded 2-5 peer sync network (real TopicSyncManager sessions talking to each other, optionally with latencies and a cut link) is checked against the lifecycle automaton SessionStarted SyncStarted Op* SyncFinished (LiveModeStarted Op*)? (SessionFinished | Failed), Failed from any state, exactly one terminal event once run() returned, nothing after it. (b) Per generated two-replica scenario a reference execution records the remote's transcript and the local sink operations; the real session is then re-run against a scripted remote once per fault point: stream closed after k messages, message k replaced by each unexpected variant, stream error item at k, sink error from sink operation k (poll_ready / start_send / poll_flush / poll_close counted separately), for every k, with and without live mode.",
             "Store is MemStore; in (b) the remote is a script replaying a real remote's recorded messages. A run() that does not return within 600 simulated seconds is a hang.",
